@@ -399,7 +399,58 @@ def r8(ctx):
     ctx.floor(R, 2)
 
 
+def r9(ctx):
+    R = "C12-R9"
+    ctx.rule(R, "a queued request is never left waiting while its listener sits in accept(): (a) TcpListener::accept parks on the listener's Notify "
+                "only on the `queue was empty` edge of its own pop (every `Notify::notified()` is dominated by the None edge of the Option returned "
+                "by the World::current closure that calls Tcp::accept) - after skipping an abandoned request it pops again instead of sleeping; "
+                "(b) every push onto ServerSocket::deque in Tcp::receive_from_network is followed, on every path to the function's return, by "
+                "Notify::notify_one / notify_waiters: a parked acceptor is woken for each request, not only for the first")
+    ab = ctx.body(R, "turmoil::net::tcp::listener::TcpListener::accept::{closure#0}")
+    if ab:
+        fam = [fb for fb in ctx.w.family(ab.id) if fb.is_async or fb.id == ab.id or "{closure" in fb.id]
+        parks = [(fb, bb, t) for fb in ctx.w.family(ab.id) for bb, t in fb.calls(re.compile(r"^tokio::sync::Notify::notified$"))]
+        empty_edges = {}
+        for fb in ctx.w.family(ab.id):
+            es = []
+            for sbb, m, els, adt, pl in variant_edges(fb, lambda p: True):
+                if adt != "std::option::Option":
+                    continue
+                o = origin(fb, {"c": {"l": pl["l"]}})
+                if o["k"] != "call":
+                    continue
+                src = o["t"]["f"] == "turmoil::host::Tcp::accept" or (o["t"]["f"] == "turmoil::world::World::current" and
+                      any(may_call(ctx.w, [cid], "turmoil::host::Tcp::accept") for cid in closure_args(fb, o["t"])))
+                if not src:
+                    continue
+                es.append(m["None"] if "None" in m else els)
+            empty_edges[fb.id] = es
+        for fb, bb, t in parks:
+            es = empty_edges.get(fb.id, [])
+            ok = bool(es) and fb.dominated_by_any(bb, edges=es)
+            ctx.inst(R, f"accept:parks-only-when-empty:{fb.id}", ok, t["s"], "accept waits for a notification only after its pop found the queue empty" if ok else
+                     f"`{fb.id}` awaits Notify::notified() on a path where the request queue was not just found empty (e.g. after skipping a connector that "
+                     "gave up): live requests already queued are not accepted until some later SYN arrives - their connect hangs with the listener in accept()")
+        ctx.inst(R, "accept:park-found", bool(parks), ab.span, f"{len(parks)} park site(s) analysed" if parks else "accept no longer parks on Notify::notified(): re-derive")
+    rb = ctx.body(R, "turmoil::host::Tcp::receive_from_network")
+    if rb:
+        DEQ = "turmoil::host::ServerSocket::deque"
+        n = 0
+        for fb in ctx.w.family(rb.id):
+            pushes = [(bb, t) for bb, t in fb.calls(re.compile(r"VecDeque::(push_back|push_front|insert|extend)$")) if t["args"] and _on_field(fb, t["args"][0], DEQ)]
+            wakes = {bb for bb, t in fb.calls(re.compile(r"^tokio::sync::Notify::(notify_one|notify_waiters|notify_last)$"))}
+            for bb, t in pushes:
+                n += 1
+                leak = any(fb.term(x)["k"] == "return" for x in fb.reachable(bb, removed_blocks=wakes - {bb}))
+                ctx.inst(R, f"enqueue:always-notifies:{fb.id}#{n}", not leak, t["s"], "every enqueue is followed by a notification" if not leak else
+                         f"`{fb.id}` can return after queueing a request without notifying the listener: with two tasks parked in accept() and two requests "
+                         "delivered in one step only one is woken, and the other request stays queued - neither accepted nor refused")
+        ctx.inst(R, "enqueue:found", n >= 1, rb.span, f"{n} enqueue site(s) analysed" if n else "no push onto ServerSocket::deque found in receive_from_network: re-derive")
+    ctx.floor(R, 4)
+
+
 def run(ctx):
+    r9(ctx)
     r8(ctx)
     r7(ctx)
     from . import C15
